@@ -178,7 +178,7 @@ struct extensions_t : boost::multi::detail::tuple_prepend_t<index_extension, typ
 		#if !(defined(__NVCC__) || defined(__HIP_PLATFORM_NVIDIA__) || defined(__HIP_PLATFORM_AMD__) || defined(__HIPCC__))
 		assert( sub_num_elements != 0 );  // clang hip doesn't allow assert in host device functions
 		#endif
-		return multi::detail::ht_tuple(n/sub_num_elements, extensions_t<D-1>{static_cast<base_ const&>(*this).tail()}.from_linear(n%sub_num_elements));
+		return multi::detail::ht_tuple(n/sub_num_elements + this->base().head().first(), extensions_t<D-1>{static_cast<base_ const&>(*this).tail()}.from_linear(n%sub_num_elements));
 	}
 
 	friend constexpr auto operator%(nelems_type idx, extensions_t const& extensions) {return extensions.from_linear(idx);}
@@ -188,7 +188,7 @@ struct extensions_t : boost::multi::detail::tuple_prepend_t<index_extension, typ
 	template<class... Indices>
 	constexpr auto to_linear(index const& idx, Indices const&... rest) const {
 		auto const sub_extensions = extensions_t<D-1>{this->base().tail()};
-		return (idx*sub_extensions.num_elements()) + sub_extensions.to_linear(rest...);
+		return ((idx - this->base().head().first())*sub_extensions.num_elements()) + sub_extensions.to_linear(rest...);
 	}
 	template<class... Indices>
 	constexpr auto operator()(index idx, Indices... rest) const {return to_linear(idx, rest...);}
@@ -370,8 +370,8 @@ template<> struct extensions_t<1> : tuple<multi::index_extension> {
 
 	using indices_type = multi::detail::tuple<multi::index>;
 
-	[[nodiscard]] constexpr auto from_linear(nelems_type const& n) const -> indices_type {  // NOLINT(readability-convert-member-functions-to-static) TODO(correaa)
-		return indices_type{n};
+	[[nodiscard]] constexpr auto from_linear(nelems_type const& n) const -> indices_type {
+		return indices_type{n + this->base().head().first()};
 	}
 
 	friend
@@ -380,13 +380,13 @@ template<> struct extensions_t<1> : tuple<multi::index_extension> {
 		return extensions.from_linear(idx);
 	}
 
-	static constexpr auto to_linear(index const& idx) -> difference_type { return idx; }
+	constexpr auto to_linear(index const& idx) const -> difference_type { return idx - this->base().head().first(); }
 
 	constexpr auto operator[](index idx) const {
 		using std::get;
 		return multi::detail::tuple<multi::index>{get<0>(this->base())[idx]};
 	}
-	constexpr auto operator()(index idx) const { return idx; }
+	constexpr auto operator()(index idx) const { return to_linear(idx); }
 	// constexpr auto operator()(index const& /*idx*/) const -> difference_type { return to_linear(42); }
 
 	template<class... Indices>
@@ -773,7 +773,7 @@ struct layout_t
 	#endif
 
 	constexpr auto at_aux_(index idx) const {
-		return sub_type{sub_.sub_, sub_.stride_, sub_.offset_ + offset_ + (idx*stride_), sub_.nelems_}();
+		return sub_type{sub_.sub_, sub_.stride_, sub_.offset_ + offset_ - (idx*stride_), sub_.nelems_}();  // the offset field carries minus the accumulated displacement
 	}
 
  public:
@@ -1067,7 +1067,7 @@ struct layout_t<0, SSize>
 	[[nodiscard]] constexpr auto offsets() const {return offsets_type{};}
 	[[nodiscard]] constexpr auto nelemss() const {return nelemss_type{};}
 
-	constexpr auto operator()() const { return offset_; }
+	constexpr auto operator()() const { return -offset_; }
 	// constexpr explicit operator offset_type() const {return offset_;}
 
 	constexpr auto stride() const -> stride_type = delete;
